@@ -139,7 +139,9 @@ def run_skel(job):
     for k in range(rnd.randint(2, 6)):
         nm = "X%d" % k
         s["nodes"].append({"name": nm, "type": "J", "elev": netgen.rgrid(rnd, 0, 20, 2.5),
-                           "dem": [{"base": netgen.rgrid(rnd, 0.0005, 0.004, 0.0005), "pat": rnd.choice(list(s["patterns"]) + [""])}],
+                           # mostly withdrawals, sometimes an inflow (a well modelled as a negative demand)
+                           "dem": [{"base": netgen.rgrid(rnd, 0.0005, 0.004, 0.0005) * rnd.choice([1, 1, 1, -1]),
+                                    "pat": rnd.choice(list(s["patterns"]) + [""])}],
                            "has_pdd": False, "pmin": 0.0, "preq": 0.0, "pexp": [1, 2],
                            "leak": {"on": False, "area": 0.0, "cd": 0.75, "start": -1, "end": -1}})
         s["links"].append({"name": "PX%d" % k, "type": "pipe", "a": rnd.choice(js + extra), "b": nm, "len": netgen.rgrid(rnd, 50, 500, 10),
